@@ -137,9 +137,6 @@ func classicCase(cx *Ctx, i int) *DiffMeta {
 		size = 1 + i%12
 	}
 	q, max := classicQuery(i, size)
-	t, names, err := term.ParseTerm(q)
-	if err != nil {
-		panic(err)
-	}
-	return &DiffMeta{Program: classicClauses, Query: t, NVars: len(names), Max: max, Family: "classic", Assert: i%7 == 6}
+	t, nv, qv := parseQuery(q)
+	return &DiffMeta{Program: classicClauses, Query: t, NVars: nv, QVars: qv, Max: max, Family: "classic", Assert: i%7 == 6}
 }
